@@ -249,6 +249,26 @@ func c09Run(w *core.W, j int, exact bool) {
 			mm.Ar = append(mm.Ar[:pos], append([]*model.Rec{opt}, mm.Ar[pos:]...)...)
 		}
 	}
+	if j%8 == 3 {
+		// everything in one section only (a referral without answer, glue only, ...): what is left after
+		// truncation is then a question plus a record or two of a single section
+		all := append(append(append([]*model.Rec(nil), mm.An...), mm.Ns...), mm.Ar...)
+		mm.An, mm.Ns, mm.Ar = nil, nil, nil
+		*[]*[]*model.Rec{&mm.An, &mm.Ns, &mm.Ar}[j/8%3] = all
+		if j/8%3 != 2 {
+			// an OPT belongs in the additional section
+			var keep []*model.Rec
+			for _, r := range all {
+				if r.Type == 41 {
+					mm.Ar = append(mm.Ar, r)
+				} else {
+					keep = append(keep, r)
+				}
+			}
+			*[]*[]*model.Rec{&mm.An, &mm.Ns}[j/8%3] = keep
+		}
+		w.Count("single_section_replies", 1)
+	}
 	if g.R.IntN(4) == 0 {
 		// TXT-family records without any string (RDLENGTH 0), anywhere in the reply
 		for x := 1 + g.R.IntN(3); x > 0; x-- {
